@@ -384,6 +384,8 @@ class Rendered(object):
         self.last = ''            # last emitted string
         self.in_comment = False   # an unterminated comment line is open (no boundary is safe)
         self.unsafe_depth = 0     # > 0 while rendering the arguments up to a verbatim argument
+        self.tspans = []          # (start, end, in_math, delimiter) of every plain-text piece written
+        self.mspans = []          # (start, end, open, close) of every formula written
 
     def emit(self, s, safe=True, blank=False):
         if not s:
@@ -415,6 +417,9 @@ class Rendered(object):
         return ''.join(self.parts)
 
 
+LAST_RENDER = {}
+
+
 def render(doc, vocab):
     """Return (source, safe boundaries).  Raises Redraw for ambiguous derivations."""
     r = Rendered()
@@ -423,15 +428,18 @@ def render(doc, vocab):
         pass    # absent optional slot at the very end: fine
     if not r.in_comment:
         r.bounds.append(r.n)
+    LAST_RENDER['tspans'] = r.tspans
+    LAST_RENDER['mspans'] = r.mspans
     return r.source(), sorted(set(r.bounds))
 
 
-def _render_block(items, r, vocab, top=False, math=False):
+def _render_block(items, r, vocab, top=False, math=False, mdelim=None):
     n = len(items)
     for i, it in enumerate(items):
         k = it[0]
         prev = items[i - 1] if i > 0 else None
         if k == 'T':
+            r.tspans.append((r.n, r.n + len(it[1]), bool(math), mdelim if math else None))
             r.emit(it[1])
         elif k == 'W':
             r.emit(it[1], blank=True)
@@ -440,18 +448,20 @@ def _render_block(items, r, vocab, top=False, math=False):
             r.forbid = set()      # a paragraph break ends the search for optional arguments
         elif k == 'G':
             r.emit('{')
-            _render_block(it[1], r, vocab, math=math)
+            _render_block(it[1], r, vocab, math=math, mdelim=mdelim)
             r.forbid = set()
             r.after_word = False
             r.emit('}')
         elif k == 'M':
-            _render_macro(it, r, vocab, math)
+            _render_macro(it, r, vocab, math, mdelim)
         elif k == 'E':
             r.emit('\\begin{%s}' % it[1])
             d = vocab.envs.get(it[1])
-            _render_args(d['sig'] if d else [], it[2], r, vocab, math)
-            bmath = math or bool(d and d.get('math'))
-            _render_block(it[3], r, vocab, math=bmath)
+            _render_args(d, it[2], r, vocab, math, mdelim)
+            if d and d.get('math'):
+                _render_block(it[3], r, vocab, math=True, mdelim='<env>')
+            else:
+                _render_block(it[3], r, vocab, math=math, mdelim=mdelim)
             r.forbid = set()
             r.after_word = False
             r.emit('\\end{%s}' % it[1])
@@ -462,15 +472,17 @@ def _render_block(items, r, vocab, top=False, math=False):
                     raise Redraw('dollar formulas of different kinds adjacent')
                 if not b:
                     raise Redraw('empty dollar formula')
+            mstart = r.n
             r.emit(o)
             start = len(r.parts)
-            _render_block(b, r, vocab, math=True)
+            _render_block(b, r, vocab, math=True, mdelim=o)
             body = ''.join(r.parts[start:])
             if o[0] == '$' and (body[:1] == '$' or body[-1:] == '$' or not body.strip()):
                 raise Redraw('dollar formula body starts/ends with a dollar or is blank')
             r.forbid = set()
             r.after_word = False
             r.emit(c)
+            r.mspans.append((mstart, r.n, o, c))
         elif k == 'C':
             last_of_doc = top and i == n - 1
             post = it[2]
@@ -520,16 +532,18 @@ def _render_block(items, r, vocab, top=False, math=False):
             r.forbid_adj = set("-`'")
 
 
-def _render_macro(it, r, vocab, math):
+def _render_macro(it, r, vocab, math, mdelim=None):
     name, args = it[1], it[2]
     r.emit('\\' + name)
     if name and name[-1].isalpha():
         r.after_word = True
     d = vocab.macros.get(name)
-    _render_args(d['sig'] if d else [], args, r, vocab, math)
+    _render_args(d, args, r, vocab, math, mdelim)
 
 
-def _render_args(sig, args, r, vocab, math):
+def _render_args(d, args, r, vocab, math, mdelim=None):
+    sig = d['sig'] if d else []
+    modes = d['mode'] if d else []
     if len(sig) != len(args):
         raise ValueError('signature/argument mismatch')
     pending = set()
@@ -540,6 +554,13 @@ def _render_args(sig, args, r, vocab, math):
     if last_v >= 0:
         r.unsafe_depth += 1
     for ai, (kind, a) in enumerate(zip(sig, args)):
+        amode = modes[ai] if ai < len(modes) else None
+        if amode == 'text':
+            amath, adelim = False, None
+        elif amode == 'math':
+            amath, adelim = True, '<arg>'
+        else:
+            amath, adelim = math, mdelim
         if a is None:
             op = slot_opener(kind) or ('[' if kind == '[nospace' else None)
             if op:
@@ -584,7 +605,7 @@ def _render_args(sig, args, r, vocab, math):
             o, c, b = a[2], a[3], a[4]
             r.emit(o, safe=vsafe)
             start = len(r.parts)
-            _render_block(b, r, vocab, math=math)
+            _render_block(b, r, vocab, math=amath, mdelim=adelim)
             if o != '{':
                 body = ''.join(r.parts[start:])
                 # the closing delimiter must not occur at the top level of the body
@@ -602,6 +623,7 @@ def _render_args(sig, args, r, vocab, math):
             r.after_word = False
             r.emit(c)
         elif what == 'tok':
+            r.tspans.append((r.n, r.n + len(a[2]), bool(amath), adelim if amath else None))
             r.emit(a[2], safe=vsafe)
         elif what == 'tokm':
             r.emit('\\' + a[2], safe=vsafe)
